@@ -104,8 +104,6 @@ theorem installWith_issues (res : List (String × String) → Ref → String) (p
   unfold installWith installBody installApply listOf applyPkg; repeat' issues_step
 
 /-- the TLS programs write secrets only -/
-def SecretOnly (r : Req) : Prop := Only .secrets r
-
 theorem tlsStep_issues_only (g : Generator) (ca : String) (server client : Option TlsRef) (n : Nat) :
     Issues (Only .secrets) (tlsStep g ca server client n) := by
   unfold tlsStep ensureOpt ensureLeaf issueLeaf loadOrGenerateCA genCA writeSecret
